@@ -1,8 +1,11 @@
-"""usage: mut.py <name> ; applies mutation <name> to /tmp/wt_a06, runs ./check C06, reverts."""
+"""usage: c06_mutations.py <name> ; applies mutation <name> to the scratch worktree /tmp/wt_a06
+(git -C /repo worktree add --detach /tmp/wt_a06 HEAD), runs ./check C06 with FINVERIF_REPO on it, reverts."""
 import subprocess, sys, os, re
 WT='/tmp/wt_a06'
 R='financepy/products/rates/'
 M={
+ 'revert_2a49ff7': (R+'ois.py', "        if self.float_leg.leg_type == SwapTypes.PAY:\n            float_leg_value = -float_leg_value\n", "        if False:\n            float_leg_value = -float_leg_value\n"),
+ 'revert_f4e65d4': (R+'swap_float_leg.py', "        self.principal = principal\n", "        self.principal = 0.0\n"),
  'ois_rate_scaled': (R+'ois.py', "        cpn = float_leg_value / pv01 / self.fixed_leg.notional\n", "        cpn = float_leg_value / pv01 / self.fixed_leg.notional * 1.001\n"),
  'float_principal_first_notional': (R+'swap_float_leg.py', "payment_pv = self.principal * df_payment * self.notional_array[-1]", "payment_pv = self.principal * df_payment * self.notional_array[0]"),
  'fra_sign_fixed_only_receive': (R+'ibor_fra.py', "        v = v * self.notional / df_value\n", "        v = v * abs(self.notional) / df_value\n"),
